@@ -159,6 +159,47 @@ Theorem svd_ident_valid (nonneg : R -> Prop) n : nonneg r1 -> SvdValid nonneg n 
 Proof. intros H. unfold SvdValid, svd_ident. cbn [sk sU sS sV]. repeat split; auto using orthocols_eye.
   eapply feq_trans; [apply recon_eye|]. intros i j _ _. unfold dg, eye. ring. Qed.
 
+(* any selection of distinct positions of a valid decomposition: orthonormal columns, non-negative Sigma, singular triplets
+   A V' = U' Sigma'; a selection that is a permutation of all positions reconstructs A *)
+Theorem svd_take_partial (nonneg : R -> Prop) m n r A U s V idx : SvdSpec nonneg m n r A U s V -> NoDup idx -> (forall x, In x idx -> (x < r)%nat) ->
+  let o := svd_take idx U s V in
+  orthocols m (sk o) (sU o) /\ orthocols n (sk o) (sV o) /\ (forall j, (j < sk o)%nat -> nonneg (sS o j)) /\
+  feq m (sk o) (mmul n A (sV o)) (fun i j => sU o i j * sS o j).
+Proof. intros (Hrm & Hrn & HU & HV & Hs & HA) Hnd Hr. cbn zeta. unfold svd_take. cbn [sk sU sS sV]. repeat split.
+  - apply (orthocols_take m r); auto. apply (orthocols_le m m r); auto.
+  - apply (orthocols_take n r); auto. apply (orthocols_le n n r); auto.
+  - intros j Hj. apply Hs, Hr, nth_In. exact Hj.
+  - intros i j Hi Hj. assert (Hx : (nth j idx 0 < r)%nat) by (apply Hr, nth_In; exact Hj). set (x := nth j idx 0%nat) in *.
+    unfold mmul. rewrite (sum_ext n _ (fun c => sum r (fun l => (U i l * s l) * (conj (V c l) * V c x)))).
+    + rewrite sum_swap. rewrite (sum_ext r _ (fun l => (U i l * s l) * delta l x)).
+      * rewrite sum_delta_r by exact Hx. reflexivity.
+      * intros l Hl. rewrite sum_mul_l. f_equal. change (sum n (fun c => conj (V c l) * V c x)) with (mmul n (cj V) V l x). apply HV; lia.
+    + intros c Hc. rewrite (HA i c Hi Hc). rewrite <- sum_mul_r. apply sum_ext; intros; unfold x; ring. Qed.
+Theorem svd_take_all (nonneg : R -> Prop) m n r A U s V idx : SvdSpec nonneg m n r A U s V -> Permutation idx (seq 0 r) ->
+  let o := svd_take idx U s V in sk o = r /\ SvdValid nonneg m n A o.
+Proof. intros HS Hp. assert (HL : length idx = r) by (rewrite (Permutation_length Hp); apply seq_length).
+  assert (Hnd : NoDup idx) by (apply (Permutation_NoDup (Permutation_sym Hp)), seq_NoDup).
+  assert (Hr : forall x, In x idx -> (x < r)%nat) by (intros x Hx; apply (Permutation_in _ Hp) in Hx; apply in_seq in Hx; lia).
+  destruct (svd_take_partial nonneg m n r A U s V idx HS Hnd Hr) as (H1 & H2 & H3 & _). cbn zeta in *.
+  split; [exact HL|]. unfold SvdValid. repeat split; auto.
+  destruct HS as (_ & _ & _ & _ & _ & HA). intros i j Hi Hj. rewrite (HA i j Hi Hj). cbn [svd_take sk sU sS sV].
+  exact (sum_perm idx r (fun l => U i l * s l * conj (V j l)) Hp). Qed.
+(* the repaired Diagonal rule starts from a valid decomposition of diag(d): d = ph * ab with |ph| = 1 and ab >= 0 *)
+Lemma svd_diag_signed_spec (nonneg : R -> Prop) n d ab ph :
+  (forall i, (i < n)%nat -> d i = ph i * ab i /\ conj (ph i) * ph i = r1 /\ nonneg (ab i)) ->
+  SvdSpec nonneg n n n (dg d) (dg ph) ab eye.
+Proof. intros H. unfold SvdSpec. repeat split; try lia.
+  - intros a b Ha Hb. unfold mmul. rewrite (sum_ext n _ (fun l => (conj (ph a) * delta a l) * dg ph l b)).
+    + rewrite (sum_ext n _ (fun l => delta a l * (conj (ph a) * dg ph l b))) by (intros; ring). rewrite (sum_delta_l n a (fun l => conj (ph a) * dg ph l b) Ha).
+      unfold dg, eye, delta. destruct (Nat.eqb_spec a b) as [->|Hne]; [destruct (H b Hb) as (_ & Hu & _); transitivity (conj (ph b) * ph b); [ring|exact Hu]|ring].
+    + intros l Hl. unfold cj. unfold dg at 1. rewrite conj_mul, conj_delta. unfold delta at 1 2.
+      destruct (Nat.eqb_spec l a) as [->|Hne]; [rewrite Nat.eqb_refl; ring|destruct (Nat.eqb_spec a l); [congruence|ring]].
+  - apply orthocols_eye.
+  - intros l Hl. apply H. exact Hl.
+  - intros i j Hi Hj. rewrite (sum_ext n _ (fun l => delta i l * (ph i * ab l * delta j l))).
+    + rewrite (sum_delta_l n i (fun l => ph i * ab l * delta j l) Hi). destruct (H i Hi) as (Hd & _). unfold dg. rewrite Hd, (delta_sym j i). ring.
+    + intros l Hl. unfold dg, eye. rewrite conj_delta. unfold delta. destruct (Nat.eqb_spec i l); [subst; ring|ring]. Qed.
+
 (* ---------- pinv: the four Penrose equations ---------- *)
 Definition Penrose (m n : nat) (A X : fm) : Prop :=
   feq m n (mmul m (mmul n A X) A) A /\ feq n m (mmul n (mmul m X A) X) X /\
